@@ -353,7 +353,7 @@ func init() {
 
 	planTable["C34"] = func(q bool) *Plan {
 		p := &Plan{Level: "model_checking", Engine: "E-sched",
-			Text:      "y.WaterMark alone, with every channel statement and every atomic operation of watermark.go as a schedule point: Begin issued in index order, Done in any order, one or two WaitForMark callers, from a fresh mark and from one that already advanced (readMark pattern); after EVERY step DoneUntil is monotone and never covers an index that was begun and not yet done; WaitForMark(j) returns only with DoneUntil >= j; at quiescence DoneUntil equals the largest fully-done index and no waiter is stranded (a stuck waiter is a deadlock of the execution). Oracle level: the C03 commit/reader interleavings, where a reader's snapshot must contain every commit at or below its read timestamp.",
+			Text:      "y.WaterMark alone, with every channel statement and every atomic operation of watermark.go as a schedule point: Begin issued in index order, Done in any order, one or two WaitForMark callers, from a fresh mark and from one that already advanced (readMark pattern); after EVERY step DoneUntil is monotone and never covers an index that was begun and not yet done; WaitForMark(j) returns only with DoneUntil >= j; at quiescence DoneUntil equals the largest fully-done index and no waiter is stranded (a stuck waiter is a deadlock of the execution). Oracle level: the C03 commit/reader interleavings, where a reader's snapshot must contain every commit at or below its read timestamp; the same race right after DB.Load (which re-seats the oracle's timestamps).",
 			Note:      "Bounded model: 2-3 indices, 1-2 waiters; sequentially consistent interleavings of channel and atomic operations.",
 			Technique: "stateless model checking at channel/atomic-operation granularity (controlled scheduler, preemption-bounded DFS) with per-step invariants",
 			Rule:      "6 cases (thread layout x initial mark) x schedules up to the bound"}
@@ -361,9 +361,9 @@ func init() {
 			return Stage{Binary: "badger.fine", Scenario: "c34wm", Bound: bound, NShard: 6, BudgetS: budget, Params: prm("cases", 6)}
 		}
 		if q {
-			p.Stages = []Stage{wm(1, 30), wm(2, 45), wm(3, 40), sched("c03a", 1, 16, 25, nil)}
+			p.Stages = []Stage{wm(1, 30), wm(2, 45), wm(3, 40), sched("c03a", 1, 16, 25, nil), sched("c34load", 2, 16, 30, nil)}
 		} else {
-			p.Stages = []Stage{wm(2, 300), wm(3, 900), wm(4, 1200), sched("c03a", 2, 16, 600, nil)}
+			p.Stages = []Stage{wm(2, 300), wm(3, 900), wm(4, 1200), sched("c03a", 2, 16, 600, nil), sched("c34load", 3, 16, 300, nil)}
 		}
 		return p
 	}
@@ -464,14 +464,14 @@ func init() {
 
 	planTable["C24"] = func(q bool) *Plan {
 		p := &Plan{Level: "model_checking", Engine: "E-enum + E-sched",
-			Text:      "Histories: every sequence of up to 4 (quick) / 5 (thorough) operations out of {set a, set b, delete a, set a with discard-earlier-versions, set a already expired, set a with a future expiry, flush, compaction, backup point} on a source DB with NumVersionsToKeep 1 and 100. At every backup point an incremental backup is taken with exactly the version the previous backup returned; at the end a last incremental and a full backup. The full backup loaded into an empty DB and the chain loaded in order into another both show the source's final visible state (value, user meta, expiry through Get and iteration); with NumVersionsToKeep 100 the restored version list of every key equals the source's versions down to and including the first delete / expired / discard-earlier entry plus the delete marker Backup adds below a discard-earlier entry; the version a full backup returns is the newest version it dumped; after Load a new commit gets a timestamp above every loaded version and is read back. Schedules: a full backup with two producer goroutines over four accounts in different key ranges races a transaction moving an amount between the first and the last; then an incremental backup from the returned version; under every interleaving up to the bound, loading full + incremental reproduces the source's final state.",
+			Text:      "Histories: every sequence of up to 4 (quick) / 5 (thorough) operations out of {set a, set b, delete a, set a with discard-earlier-versions, set a already expired, set a with a future expiry, flush, compaction, backup point} on a source DB with NumVersionsToKeep 1 and 100. At every backup point an incremental backup is taken with exactly the version the previous backup returned; at the end a last incremental and a full backup. The full backup loaded into an empty DB and the chain loaded in order into another both show the source's final visible state (value, user meta, expiry through Get and iteration); with NumVersionsToKeep 100 the restored version list of every key equals the source's versions down to and including the first delete / expired / discard-earlier entry plus the delete marker Backup adds below a discard-earlier entry; the version a full backup returns is the newest version it dumped; after Load a new commit gets a timestamp above every loaded version and is read back. Schedules: a full backup with two producer goroutines over four accounts in different key ranges races a transaction moving an amount between the first and the last; then an incremental backup from the returned version; under every interleaving up to the bound, loading full + incremental reproduces the source's final state. A Load that needs three KVLoader batches runs with badger's writer goroutine as a scheduled thread (batches queued or half applied while the loader fills the next one): every key of the backup must be present afterwards. After Load, a crash image (copy of the open directory) must re-open with the loaded content, and the full backup loaded into an InMemory database shows the same state.",
 			Note:      "Backups are taken through DB.Backup / DB.Load on real databases; expiry uses explicit ExpiresAt values (already past / far future).",
 			Technique: "bounded-exhaustive enumeration of histories with backup points + stateless model checking of backup producers vs a concurrent commit (controlled scheduler)",
 			Rule:      "all operation sequences up to the length (maintenance-only prefixes pruned) x NumVersionsToKeep; schedules up to the bound"}
 		if q {
-			p.Stages = []Stage{sched("c24sched", 2, 8, 40, nil), en("c24seq", 16, 90, prm("len", 3))}
+			p.Stages = []Stage{sched("c24sched", 2, 8, 40, nil), sched("c24load", 2, 4, 30, nil), en("c24seq", 16, 90, prm("len", 3))}
 		} else {
-			p.Stages = []Stage{sched("c24sched", 3, 16, 300, nil), en("c24seq", 16, 1500, prm("len", 5))}
+			p.Stages = []Stage{sched("c24sched", 3, 16, 300, nil), sched("c24load", 3, 16, 300, nil), en("c24seq", 16, 1500, prm("len", 5))}
 		}
 		return p
 	}
